@@ -5,6 +5,10 @@
 (* call of the real formatter:                                             *)
 (*   cls/neg/ds/e  the displayed value as its shortest round-trip digits   *)
 (*                 (Rust `{:e}` of the f64 the real pipeline computed),    *)
+(*   alts          further shortest representations [ds, e] of the same    *)
+(*                 f64 (the f64 lies exactly between two decimals of the   *)
+(*                 shortest length; Rust and ryu pick different ones):     *)
+(*                 the line is judged for any of them,                     *)
 (*   sep/thr/sig   the format options (sep as a sequence of characters),   *)
 (*   text          the displayed text as a sequence of characters,         *)
 (*   panic         the formatter panicked (no text),                       *)
@@ -23,29 +27,32 @@
 (* position is the only state.                                             *)
 (* Trace file: environment variable TRACE (ndjson).                        *)
 (***************************************************************************)
-EXTENDS NumFormat, Json, IOUtils, TLC
+EXTENDS NumFormat, Json, IOUtils, TLC, TLCExt
 
 \* Strict = TRUE additionally demands the implementation's notation rule (positional iff
 \* 1e-6 <= |rounded value| < 1e6): representation, not part of C14 -> only MODEL-DRIFT.
 CONSTANT Strict
 
-VARIABLES l,    \* index of the next event to consume
-          tr    \* the recorded trace (constant)
-tvars == <<l, tr>>
+\* the recorded trace: a constant-level definition, evaluated once (TLCEval); holding it in a state variable
+\* makes TLC fingerprint the whole trace in every state (quadratic; measured 70 events/s instead of thousands)
+tr == TLCEval(ndJsonDeserialize(IOEnv.TRACE))
 
-TraceInit == /\ l = 1
-             /\ tr = ndJsonDeserialize(IOEnv.TRACE)
+VARIABLES l     \* index of the next event to consume
+tvars == <<l>>
+
+TraceInit == l = 1
 
 EvX(ev) == [cls |-> ev.cls, neg |-> ev.neg, ds |-> ev.ds, e |-> ev.e]
+AltX(ev) == {[cls |-> "fin", neg |-> ev.neg, ds |-> ev.alts[i].ds, e |-> ev.alts[i].e] : i \in 1..Len(ev.alts)}
 EvO(ev) == [sep |-> ev.sep, thr |-> ev.thr, sig |-> ev.sig]
 EvR(ev) == [cls |-> ev.rcls, neg |-> ev.rneg, ds |-> ev.rds, e |-> ev.re]
 
 \* the real parser's value of the text against the specification's exact reading of it
-ReadBackAgrees(ev) ==
-    LET rb == ReadBack(ev.text, ev.sep)
-    IN rb.ok =>
+RBA(ev, rb) ==
+    rb.ok =>
          IF rb.v.cls # "fin" THEN Canon(EvR(ev)) = rb.v
          ELSE (Len(rb.v.ds) <= 15 /\ rb.v.e \in -300..300) => Canon(EvR(ev)) = rb.v
+ReadBackAgrees(ev) == RBA(ev, ReadBack(ev.text, ev.sep))
 
 WellFormed(ev) == /\ ev.sig >= 1
                   /\ ev.cls \in {"fin", "inf", "nan"}
@@ -53,20 +60,20 @@ WellFormed(ev) == /\ ev.sig >= 1
 
 Accept(ev) == /\ WellFormed(ev)
               /\ ~ev.panic
-              /\ Judge(EvX(ev), EvO(ev), ev.text)
               /\ ev.lex /\ ev.lexeq /\ ev.rawok
+              /\ \E xx \in {EvX(ev)} \cup AltX(ev) :
+                    /\ Judge(xx, EvO(ev), ev.text)
+                    /\ Strict => NotationOK(xx, EvO(ev), ev.text)
               /\ ReadBackAgrees(ev)
-              /\ Strict => NotationOK(EvX(ev), EvO(ev), ev.text)
 
 TraceNext == /\ l <= Len(tr)
              /\ Accept(tr[l])
              /\ l' = l + 1
-             /\ UNCHANGED tr
 
 TraceSpec == TraceInit /\ [][TraceNext]_tvars
 
 TraceAccepted ==
-    LET n == Len(ndJsonDeserialize(IOEnv.TRACE))
+    LET n == Len(tr)
         d == TLCGet("stats").diameter - 1
     IN IF d = n THEN TRUE
        ELSE /\ PrintT(<<"REJECTED", ToJson([matched |-> d, total |-> n])>>)
